@@ -546,22 +546,32 @@ impl<T: PartialOrd> Interval<T> {
     }
 }
 impl<T: PartialOrd + Copy> Interval<T> {
-    fn applied<F>(&self, f_low: F, f_high: F) -> Self
-    where
-        F: FnOnce(T) -> T,
-    {
-        match self {
-            Interval::TwoSided(low, high) => Interval::TwoSided(f_low(*low), f_high(*high)),
-            Interval::LowerOneSided(low) => Interval::UpperOneSided(f_low(*low)),
-            Interval::UpperOneSided(high) => Interval::LowerOneSided(f_high(*high)),
-        }
-    }
-
-    fn applied_both<F>(&self, f: F) -> Self
+    /// Image of the interval under a monotone function: non-decreasing if `increasing` is true,
+    /// non-increasing otherwise (in which case the bounds and the direction are exchanged).
+    fn mapped<F>(&self, f: F, increasing: bool) -> Self
     where
         F: Fn(T) -> T,
     {
-        self.applied(&f, &f)
+        match (self, increasing) {
+            (Interval::TwoSided(low, high), true) => Interval::TwoSided(f(*low), f(*high)),
+            (Interval::TwoSided(low, high), false) => Interval::TwoSided(f(*high), f(*low)),
+            (Interval::UpperOneSided(low), true) => Interval::UpperOneSided(f(*low)),
+            (Interval::UpperOneSided(low), false) => Interval::LowerOneSided(f(*low)),
+            (Interval::LowerOneSided(high), true) => Interval::LowerOneSided(f(*high)),
+            (Interval::LowerOneSided(high), false) => Interval::UpperOneSided(f(*high)),
+        }
+    }
+
+    /// Image of the interval under a constant function (e.g., multiplication by zero).
+    fn collapsed<F>(&self, f: F) -> Self
+    where
+        F: Fn(T) -> T,
+    {
+        match self {
+            Interval::TwoSided(x, _) | Interval::UpperOneSided(x) | Interval::LowerOneSided(x) => {
+                Interval::TwoSided(f(*x), f(*x))
+            }
+        }
     }
 }
 
@@ -643,19 +653,25 @@ where
     }
 }
 
-impl<F: Mul<F, Output = F> + PartialOrd + Copy> Mul<F> for Interval<F> {
+impl<F: Mul<F, Output = F> + PartialOrd + Copy + num_traits::Zero> Mul<F> for Interval<F> {
     type Output = Self;
 
     fn mul(self, rhs: F) -> Self::Output {
-        self.applied_both(|x| x * rhs)
+        if rhs > F::zero() {
+            self.mapped(|x| x * rhs, true)
+        } else if rhs < F::zero() {
+            self.mapped(|x| x * rhs, false)
+        } else {
+            self.collapsed(|x| x * rhs)
+        }
     }
 }
 
-impl<F: Div<F, Output = F> + PartialOrd + Copy> Div<F> for Interval<F> {
+impl<F: Div<F, Output = F> + PartialOrd + Copy + num_traits::Zero> Div<F> for Interval<F> {
     type Output = Self;
 
     fn div(self, rhs: F) -> Self::Output {
-        self.applied_both(|x| x / rhs)
+        self.mapped(|x| x / rhs, !(rhs < F::zero()))
     }
 }
 
@@ -663,7 +679,7 @@ impl<F: Add<F, Output = F> + PartialOrd + Copy> Add<F> for Interval<F> {
     type Output = Self;
 
     fn add(self, rhs: F) -> Self::Output {
-        self.applied_both(|x| x + rhs)
+        self.mapped(|x| x + rhs, true)
     }
 }
 
@@ -671,7 +687,7 @@ impl<F: Sub<F, Output = F> + PartialOrd + Copy> Sub<F> for Interval<F> {
     type Output = Self;
 
     fn sub(self, rhs: F) -> Self::Output {
-        self.applied_both(|x| x - rhs)
+        self.mapped(|x| x - rhs, true)
     }
 }
 
@@ -679,7 +695,7 @@ impl<F: Neg<Output = F> + PartialOrd + Copy> Neg for Interval<F> {
     type Output = Self;
 
     fn neg(self) -> Self::Output {
-        self.applied_both(|x| -x)
+        self.mapped(|x| -x, false)
     }
 }
 
